@@ -513,6 +513,14 @@ def type_and_value(draw, cfg=None):
         return many_choice_case(d)
     if c['defaults'] and not c.get('root_kinds') and c['max_depth'] >= 2 and d.pct(c.get('directed_pct', 2)):
         return codec_sensitive_default_case(d)
+    if not c.get('kinds') and not c.get('root_kinds') and d.pct(c.get('numeric_pct', 10)):
+        # a universe of numbers only: the forms of REAL (bases, exponent lengths, decimal spellings, wide exponents) and the
+        # boundaries of the integers are met once in a few hundred general cases otherwise
+        c2 = dict(c, kinds=['REAL', 'REAL', 'REAL', 'INTEGER', 'ENUMERATED', 'BOOLEAN'], max_depth=min(2, c['max_depth']),
+                  real10_pct=(25 if c['real10_pct'] else 0), real_wide_exp_pct=(12 if c.get('real_wide_exp_pct', 4) else 0))
+        d2 = D(draw, c2)
+        T = draw_type(d2)
+        return T, draw_value(d2, T)
     T = draw_type(d)
     v = draw_value(d, T)
     return T, v
